@@ -758,9 +758,10 @@ def runtime_program(enum_defs, matches_):
 class Pool:
     """Per-file universe of user-defined enums/structs."""
 
-    def __init__(self, rng, lits=False):
+    def __init__(self, rng, lits=False, wide=False):
         self.rng = rng
         self.lits = lits
+        self.wide = wide        # prefer constructors with several fields (for `..` patterns)
         self.defs = []          # Dora text of the definitions
         self.enums = []         # enum types defined so far
         self.n = 0
@@ -836,6 +837,8 @@ class Pool:
         variants = []
         for i in range(nv):
             nf = rng.choice([0, 0, 1, 1, 2, 3]) if i or nv == 1 else rng.choice([1, 1, 2])
+            if self.wide and (i == 0 or rng.random() < 0.5):
+                nf = rng.choice([2, 2, 3, 3, 4])
             variants.append(("V%d" % i, [self._gen(d - 1 if rng.random() < 0.5 else 0) for _ in range(nf)]))
         rng.shuffle(variants)
         variants = [("V%d" % i, fs) for i, (_, fs) in enumerate(variants)]
@@ -1099,16 +1102,23 @@ def type_at(t, p, path):
 
 def gen_file(rng, family, nmatches):
     """One file worth of sampled matches: (enum definitions, [Match])."""
-    pool = Pool(rng, lits=(family == "lit"))
+    pool = Pool(rng, lits=(family == "lit"), wide=(family in ("restm", "rest")))
     out = []
     for _ in range(nmatches):
         r = rng.random()
         cap = 16 if r < 0.3 else 64 if r < 0.65 else 256 if r < 0.9 else 1024 if r < 0.97 else MAXVALUES
-        d = rng.choice([0, 1, 1, 2, 2, 2, 3, 3])
+        d = rng.choice([0, 1, 1, 2, 2, 2, 3, 3] if family not in ("restm", "restt") else [1, 1, 2, 2, 3])
         if family == "lit" and rng.random() < 0.35:
             t = pool.lit()
         else:
             t = pool.gen(d, cap)
+            if family == "restm" and not (t[0] == "enum" and any(len(fs) >= 2 for _, fs in t[3])):
+                c = [e for e in pool.enums if nvalues(e) <= cap and any(len(fs) >= 2 for _, fs in e[3])]
+                t = rng.choice(c) if c else pool._define("enum", [("V0", [BOOL, pool.leaf()]), ("V1", [])])
+            if family == "restt" and t[0] != "tuple":
+                t = tuple_ty([pool.leaf(), t] if rng.random() < 0.5 else [t, pool.leaf(), BOOL])
+                if nvalues(t) > MAXVALUES:
+                    t = tuple_ty([BOOL, pool.leaf()])
             if family == "lit" and not contains_kind(t, "lit"):
                 t = tuple_ty([pool.lit(), t]) if nvalues(t) <= 512 and depth(t) < 3 else pool.lit()
         pg = PatGen(rng, family)
